@@ -241,6 +241,7 @@ class Interp:
         self.ctx: Ctx = Ctx()
         self.no_inline: set[str] = set()
         self.method_hooks: dict = {}  # (role, method name) -> handler(interp, elem, args, kwargs, node)
+        self._carried: dict = {}
         self.path_count = 0
         self.stats = {"paths": 0, "functions": set(), "unresolved_calls": 0, "resolved_calls": 0, "loops": 0}
 
@@ -549,6 +550,10 @@ class Interp:
         if isinstance(node.op, ast.USub):
             if isinstance(v, Const) and isinstance(v.value, (int, float)):
                 return Const(-v.value)
+            if isinstance(v, ElemV) and v.role == "lit":
+                if isinstance(v.var, tuple) and v.var[:1] == ("neg",):
+                    return ElemV(v.var[1], "lit")
+                return ElemV(("neg", v.var), "lit")
             lv = self.as_lin(v)
             if lv is not None:
                 return LinV(F.lin_scale(lv.lin, -1), lv.kind)
@@ -598,6 +603,13 @@ class Interp:
                 kind = "term" if "term" in (la.kind, lb.kind) else "py"
                 return LinV(F.lin_add(la.lin, lb.lin, 1 if op == "Add" else -1), kind)
         if op == "Mult":
+            for x, y in ((a, b), (b, a)):
+                if isinstance(x, Const) and x.value in (1, -1) and isinstance(y, ElemV) and y.role == "lit":
+                    if x.value == 1:
+                        return y
+                    if isinstance(y.var, tuple) and y.var[:1] == ("neg",):
+                        return ElemV(y.var[1], "lit")
+                    return ElemV(("neg", y.var), "lit")
             la, lb = self.as_lin(a), self.as_lin(b)
             if la is not None and lb is not None:
                 if F.lin_is_const(la.lin):
@@ -915,8 +927,9 @@ class Interp:
         if isinstance(v, TupleV) and all(x is None or isinstance(x, Const) for x in (lo, hi, st)):
             return TupleV(v.items[slice(lo.value if lo else None, hi.value if hi else None, st.value if st else None)])
         if isinstance(v, ElemV) and lo is None and hi is None and st is None:
-            self.log("copy", node, src=v, dst=v)
-            return v
+            cp = ElemV(("copy", v.var, self.fresh_id("cp")), v.role, v.fam, v.cls)
+            self.log("copy", node, src=v, dst=cp)
+            return cp
         if isinstance(v, (Sym, NameV, Const)):
             return Sym(("slice", desc(v), desc(lo) if lo else None, desc(hi) if hi else None), "")
         return Sym(("slice", desc(v), desc(lo) if lo else None, desc(hi) if hi else None))
@@ -1301,7 +1314,6 @@ class Interp:
         trail: list[TrailEntry] = []
         cases: list[Case] = []
         nframe = len(base_state.frames)
-        carried = self.assigned_names(node, target)
         pre_oid = base_state.counters.get("oid", 0)
         while True:
             st = base_state.clone()
@@ -1311,6 +1323,12 @@ class Interp:
             self.state, self.ctx = st, ctx
             sig = ("next",)
             try:
+                for name in self._carried.get(id(node), ()):
+                    env = st.frames[-1].env
+                    cur = env.get(name)
+                    if isinstance(cur, (Const, LinV, Sym, PredV)) and not (isinstance(cur, Const) and isinstance(cur.value, str)):
+                        hint = "int" if isinstance(cur, LinV) or (isinstance(cur, Const) and isinstance(cur.value, int) and not isinstance(cur.value, bool)) else (cur.hint if isinstance(cur, Sym) else "")
+                        env[name] = Sym(("carried", loop_id, name), hint)
                 elem = self.inst(template, {binder: evar})
                 self.assign(target, elem)
                 body()
@@ -1394,8 +1412,21 @@ class Interp:
         elif isinstance(o, HOpaque):
             o.attrs = {k: go(v) for k, v in o.attrs.items()}
 
-    def assigned_names(self, node, target):
-        return set()
+    def carried_names(self, node):
+        """Loop-carried scalars of a `for` body: augmented-assignment targets, and names both assigned and read in
+        the body.  A generic element sees them havocked (their value after an unknown number of iterations)."""
+        targets = {n.id for n in ast.walk(node.target) if isinstance(n, ast.Name)}
+        aug, assigned, loaded = set(), set(), set()
+        for st in node.body:
+            for n in ast.walk(st):
+                if isinstance(n, ast.AugAssign) and isinstance(n.target, ast.Name):
+                    aug.add(n.target.id)
+                elif isinstance(n, ast.Name):
+                    if isinstance(n.ctx, ast.Store):
+                        assigned.add(n.id)
+                    elif isinstance(n.ctx, ast.Load):
+                        loaded.add(n.id)
+        return (aug | (assigned & loaded)) - targets
 
     # ------------------------------------------------------------------ assignment
     def assign(self, target, value, node=None):
@@ -1802,6 +1833,7 @@ class Interp:
         def body():
             self.exec_block(node.body)
 
+        self._carried[id(node)] = self.carried_names(node)
         broke = self.run_loop(node.target, it, body, node)
         if not broke and node.orelse:
             self.exec_block(node.orelse)
